@@ -901,6 +901,9 @@ func (e *Executor) Execute(ctx context.Context, m File) (err error) {
 	}
 	// In case the file was applied successfully, clean out the partial revisions.
 	r.PartialHashes = nil
+	// A resumed file may have had nothing left to execute (its failing tail was removed), in which
+	// case the loop above did not run. The error of the previous attempt must not outlive completion.
+	r.Error, r.ErrorStmt = "", ""
 	r.done()
 	return
 }
